@@ -6,11 +6,13 @@ import GqlgenVerif.Model.Schema
 shouldIncludeNode / deferrable` statement by statement: the `visited` map is threaded through nested
 calls, a fragment's type condition is tested by membership in the `satisfies` list, children collected
 from a fragment are merged into the parent's list with the (name, alias, related ObjectDefinition) rule.
-One abstraction, stated in the trusted base: when `getOrCreateAndAppendField` *creates* an entry from a
-child collected inside a fragment, the Go code appends the child's selections to the copy once more
-(they appear twice in `Selections`); the model keeps them once. Sub-selections are themselves merged by
-the same algorithm one level down, so the repetition is not observable; the correspondence run compares
-response keys, their order and the invocation log.
+When `getOrCreateAndAppendField` *creates* an entry from a child collected inside a fragment, the Go
+code appends the child's selections to the copy once more, so they appear twice in `Selections`
+(`dup = true`, the code as it is). Without `@defer` the repetition is unobservable (the repeated
+selections merge into the slots they created); with `@defer` it is observable — when the repeated part is
+re-collected one level down, a fragment's label overwrites the label a later fragment had given to a shared
+field. `dup = false` is the same algorithm without the repetition; `Lemmas/Collect.lean` proves that one
+equal to the Spec, and the driver compares the plans of `dup = true` and of the Spec on every case.
 
 Recursion is by fuel (every call consumes one unit); the driver supplies far more than any document
 needs and reports `out-of-fuel` instead of guessing.
@@ -86,58 +88,60 @@ def findSlot (s : Schema) (acc : List CF) (name alias objDef : String) : Option 
 namespace Impl
 
 /-- merge one child collected inside a fragment into the parent's list -/
-def mergeChild (s : Schema) (acc : List CF) (child : CF) (defer? : Bool) (label : String) : List CF :=
+def mergeChild (dup : Bool) (s : Schema) (acc : List CF) (child : CF) (defer? : Bool) (label : String) : List CF :=
   match findSlot s acc child.name child.alias child.objDef with
   | some i =>
     acc.modify i fun f =>
       { f with sels := f.sels ++ child.sels, deferred := if defer? then some label else f.deferred }
   | none =>
-    acc ++ [{ child with deferred := if defer? then some label else child.deferred }]
+    -- `creator()` returns the child (with its selections); then `f.Selections = append(f.Selections, child…)`
+    acc ++ [{ child with sels := if dup then child.sels ++ child.sels else child.sels,
+                         deferred := if defer? then some label else child.deferred }]
 
-def mergeChildren (s : Schema) (acc : List CF) (children : List CF) (defer? : Bool) (label : String) :
-    List CF :=
-  children.foldl (fun a c => mergeChild s a c defer? label) acc
+def mergeChildren (dup : Bool) (s : Schema) (acc : List CF) (children : List CF) (defer? : Bool)
+    (label : String) : List CF :=
+  children.foldl (fun a c => mergeChild dup s a c defer? label) acc
 
 /-- `collectFields(reqCtx, selSet, satisfies, visited)`; returns the grouped fields and the updated
     `visited` set; `none` = out of fuel -/
-def collect (s : Schema) (frags : List Frag) (vars : Vars) (satisfies : List String) :
+def collect (dup : Bool) (s : Schema) (frags : List Frag) (vars : Vars) (satisfies : List String) :
     Nat → List Sel → List CF → List String → Option (List CF × List String)
   | 0, _, _, _ => none
   | _ + 1, [], acc, vis => some (acc, vis)
   | fuel + 1, sel :: rest, acc, vis =>
     match sel with
     | .field alias name objDef dirs ss =>
-      if !shouldInclude vars dirs then collect s frags vars satisfies fuel rest acc vis else
+      if !shouldInclude vars dirs then collect dup s frags vars satisfies fuel rest acc vis else
       let acc' := match findSlot s acc name alias objDef with
         | some i => acc.modify i fun f => { f with sels := f.sels ++ ss }
         | none => acc ++ [{ alias, name, objDef, sels := ss }]
-      collect s frags vars satisfies fuel rest acc' vis
+      collect dup s frags vars satisfies fuel rest acc' vis
     | .inline tc dirs ss =>
       if !satisfies.isEmpty && tc != "" && !satisfies.contains tc then
-        collect s frags vars satisfies fuel rest acc vis
-      else if !shouldInclude vars dirs then collect s frags vars satisfies fuel rest acc vis
+        collect dup s frags vars satisfies fuel rest acc vis
+      else if !shouldInclude vars dirs then collect dup s frags vars satisfies fuel rest acc vis
       else
         let (df, lb) := deferrable vars dirs
-        match collect s frags vars satisfies fuel ss [] vis with
+        match collect dup s frags vars satisfies fuel ss [] vis with
         | none => none
         | some (children, vis') =>
-          collect s frags vars satisfies fuel rest (mergeChildren s acc children df lb) vis'
+          collect dup s frags vars satisfies fuel rest (mergeChildren dup s acc children df lb) vis'
     | .spread fname dirs =>
-      if !shouldInclude vars dirs then collect s frags vars satisfies fuel rest acc vis
-      else if vis.contains fname then collect s frags vars satisfies fuel rest acc vis
+      if !shouldInclude vars dirs then collect dup s frags vars satisfies fuel rest acc vis
+      else if vis.contains fname then collect dup s frags vars satisfies fuel rest acc vis
       else
         let vis1 := fname :: vis
         match frags.find? (·.name == fname) with
         | none => none      -- "missing fragment": the validator has already run
         | some fr =>
           if !satisfies.isEmpty && !satisfies.contains fr.typeCond then
-            collect s frags vars satisfies fuel rest acc vis1
+            collect dup s frags vars satisfies fuel rest acc vis1
           else
             let (df, lb) := deferrable vars dirs
-            match collect s frags vars satisfies fuel fr.sels [] vis1 with
+            match collect dup s frags vars satisfies fuel fr.sels [] vis1 with
             | none => none
             | some (children, vis') =>
-              collect s frags vars satisfies fuel rest (mergeChildren s acc children df lb) vis'
+              collect dup s frags vars satisfies fuel rest (mergeChildren dup s acc children df lb) vis'
 
 end Impl
 
